@@ -421,6 +421,7 @@ func (a *agg) addBatch(b *Batch, br *BatchResult, keepSamples int) {
 		t.GoSpawns += s.GoSpawns
 		t.SyncOps += s.SyncOps
 		t.StarveGuards += s.StarveGuards
+		t.Naps += s.Naps
 		if s.MaxOpSteps > t.MaxOpSteps {
 			t.MaxOpSteps = s.MaxOpSteps
 		}
